@@ -207,6 +207,24 @@ def r10_hash_call(text, log, file, base_line):
     return text
 
 
+def r11_const_static(text, log, file, base_line):
+    """R11/R12: `const N: &[u8] = b"..";` becomes an `exec const` whose body is the repository's
+    literal (external_body: Verus cannot coerce a byte-string array to a slice) and whose `ensures`
+    lists the literal's bytes, decoded mechanically from that same literal."""
+    rx = re.compile(r'(pub(?:\([a-z]+\))?\s+)?const\s+([A-Z_0-9]+)\s*:\s*&\s*(?:\'static\s+)?\[u8\]\s*=\s*(b"(?:[^"\\]|\\.)*")\s*;')
+    m = rx.search(text)
+    if not m:
+        return text
+    lit = m.group(3)
+    import ast
+    raw = ast.literal_eval(lit)  # rust byte-string escapes used here (\r \n \t \\ \" \xNN) coincide with python's
+    seq = ', '.join(f'{b}u8' for b in raw)
+    rep = (f"#[verifier::external_body]\n{m.group(1) or ''}exec const {m.group(2)}: &'static [u8]\n"
+           f"    ensures {m.group(2)}@ =~= seq![{seq}],\n{{ {lit} }}")
+    log.append(('R12', file, base_line, f'{m.group(2)}: {len(raw)} bytes decoded from the literal'))
+    return text[:m.start()] + rep + text[m.end():]
+
+
 def r8_ref_pattern(text, log, file, base_line):
     """`if let P(&x) = e {` -> `if let P(vx_r_x) = e { let x = *vx_r_x;` (Verus has no ref patterns).
 
@@ -425,6 +443,7 @@ class Weaver:
         text = r8_ref_pattern(text, u.rewrites, file, base_line)
         text = r9_str_contains(text, u.rewrites, file, base_line)
         text = r10_hash_call(text, u.rewrites, file, base_line)
+        text = r11_const_static(text, u.rewrites, file, base_line)
         text = r5_self_path(text, u.rewrites, file, base_line, strip_modules)
         return text
 
